@@ -12,7 +12,7 @@ Verdict(e) ==
   [tid |-> e.tid, i |-> e.i, op |-> "create", exit |-> e.exit, kind |-> "time",
    P_C16_Dates |-> e.exit = 0 /\ Len(e.dates) = 3 /\ \A k \in DOMAIN e.dates : DateOK(e.dates[k]),
    \* dates copied into a packing list by a flatten that runs in another zone still denote the same instants
-   P_C16_Carried |-> e.exit = 0 => (e.flat_exit = 0 /\ Len(e.flat) = 1 /\ e.flat_size = e.size /\ \A k \in DOMAIN e.flat : e.flat[k].wellformed /\ Denotes(W(e.flat[k])) = e.flat[k].true_instant),
+   P_C16_Carried |-> e.exit = 0 => (e.flat_exit = 0 /\ Len(e.flat) = 1 /\ e.flat_size = e.size /\ e.flat_fname_ok /\ \A k \in DOMAIN e.flat : e.flat[k].wellformed /\ Denotes(W(e.flat[k])) = e.flat[k].true_instant),
    P_C16_Size |-> e.exit = 0 /\ e.size_written = e.size,
    P_C16_FileNameUTC |-> e.exit = 0 /\ e.fname_ok,
    \* Layer M: the offsets written are those of mode "at_date"
